@@ -125,6 +125,11 @@ type Scenario struct {
 	// connections, while the protocol constructor is slow: they race for the creation of
 	// the instance.  The order in which they were accepted is read off the batch.
 	Race    int  `json:"race,omitempty"`
+	// ParkRace (with LateTree): messages 0 and 1 are two children's answers to a node that does not
+	// know the tree.  The interleaving is forced with the overlay's schedule points: message 0 is
+	// parked and the tree requested; message 1's tree lookup misses; only then the tree arrives and
+	// the parked messages are flushed; only then message 1 is parked.
+	ParkRace bool `json:"park_race,omitempty"`
 	Backlog bool `json:"backlog,omitempty"`
 	BlockAt int  `json:"block_at,omitempty"`
 	// WaitMs overrides the deadline after which a fence is declared missing.
@@ -694,6 +699,87 @@ func (w *worker) run(sc *Scenario) {
 	detail := ""
 	seq := int64(0)
 	atomic.StoreInt64(&slowCtor, 0)
+	skip := sc.Race
+	if sc.ParkRace && sc.LateTree && len(sc.Msgs) >= 2 && len(sc.Insts) > 0 {
+		skip = 2
+		target := w.servers[res.Nodes[sc.Insts[0]].Srv]
+		ov := w.local.Overlays[target.ServerIdentity.ID]
+		bMissed, flushed := make(chan struct{}), make(chan struct{})
+		var misses, flushes int32
+		onet.SetVerifHook(func(point string, args ...interface{}) {
+			if len(args) == 0 {
+				return
+			}
+			if o, ok := args[0].(*onet.Overlay); !ok || o != ov {
+				return
+			}
+			if len(args) > 1 {
+				// events about a tree: only the scenario's tree counts (the receiver also learns the second tree)
+				if t, ok := args[1].(*onet.Tree); ok && (t == nil || !t.ID.Equal(tree.ID)) {
+					return
+				}
+			}
+			switch point {
+			case "overlay.treeMiss":
+				if atomic.AddInt32(&misses, 1) == 2 {
+					close(bMissed) // the second answer has looked the tree up in vain ...
+					select {
+					case <-flushed: // ... and goes on only when the tree has arrived and the flush is over
+					case <-time.After(waitFor):
+					}
+				}
+			case "overlay.treeArriveTested":
+				select {
+				case <-bMissed:
+				case <-time.After(waitFor):
+				}
+			case "overlay.flushDone":
+				if atomic.AddInt32(&flushes, 1) == 1 {
+					close(flushed)
+				}
+			}
+		})
+		inject := func(i int) bool {
+			m := sc.Msgs[i]
+			if claimed[i] == nil || m.Inst != 0 {
+				return false
+			}
+			to := toks[0]
+			body := mkMsg(m.Type, m.Payload)
+			buf, err := network.Marshal(body)
+			if err != nil {
+				return false
+			}
+			pm := &onet.ProtocolMsg{From: to.ChangeTreeNodeID(*claimed[i]), To: to, MsgSlice: buf, MsgType: network.MessageType(body)}
+			ov.Process(&network.Envelope{ServerIdentity: cl.envelopeIdentity(m.Peer, m.Decl), MsgType: onet.ProtocolMsgID, Msg: pm, Size: 1})
+			return true
+		}
+		okA := inject(0)
+		done := make(chan bool, 1)
+		go func() { done <- inject(1) }()
+		st, det := "", ""
+		select {
+		case okB := <-done:
+			if !okA || !okB {
+				st, det = "error", "bad park-race scenario"
+			}
+		case <-time.After(2 * waitFor):
+			st, det = "hung", "the second answer did not come back from the overlay"
+		}
+		onet.SetVerifHook(func(string, ...interface{}) {})
+		if st != "" {
+			w.emit(line{End: st, Det: det})
+			return
+		}
+		// both answers are with the overlay and the tree is known: give the instance the time it needs
+		// (it is created by the flush); if nothing comes, the fence below says so
+		for k := 0; k < 5000; k++ {
+			if p := w.anyProto(); p != nil && p.Rx() >= 2 {
+				break
+			}
+			time.Sleep(time.Millisecond)
+		}
+	}
 	if sc.Race > 0 && sc.Race <= len(sc.Msgs) {
 		atomic.StoreInt64(&slowCtor, int64(30*time.Millisecond))
 		var wg sync.WaitGroup
@@ -731,8 +817,8 @@ func (w *worker) run(sc *Scenario) {
 	}
 loop:
 	for i, m := range sc.Msgs {
-		if i < sc.Race {
-			continue // handed over concurrently above
+		if i < skip {
+			continue // handed over above
 		}
 		if m.Inst < 0 || m.Inst >= len(toks) {
 			status, detail = "error", "bad instance index"
